@@ -51,6 +51,9 @@ fn lit(t: &str) -> String {
         "null".to_string()
     } else if let Some(i) = t.strip_prefix('i') {
         i.to_string()
+    } else if let Some(f) = t.strip_prefix('f') {
+        // Float token: "f2" is 2.0 (the same text the dump produces for a stored Float)
+        if f.contains('.') { f.to_string() } else { format!("{f}.0") }
     } else if let Some(s) = t.strip_prefix('s') {
         format!("'{s}'")
     } else {
